@@ -32,6 +32,15 @@ Definition sw_aff_beq {T} (F : Fops T) (A C : sw_aff (T := T)) : bool :=
 Definition te_aff_beq {T} (F : Fops T) (A C : te_aff (T := T)) : bool :=
   feqb F (fst A) (fst C) && feqb F (snd A) (snd C).
 
+(* a list of [fuel] elements f i, f (i+1), ... ; (index, value) association in a flat list [i0; v0; i1; v1; ...] *)
+Fixpoint long_stream {A} (fuel : nat) (i : Z) (f : Z -> A) : list A :=
+  match fuel with O => [] | S fu => f i :: long_stream fu (i + 1) f end.
+Fixpoint sparse_lookup (i : Z) (l : list Z) : Z :=
+  match l with
+  | j :: v :: r => if i =? j then v else sparse_lookup i r
+  | _ => 0
+  end.
+
 Section RunG.
   Context {G B : Type} (GO : Gops G B) (beq : B -> B -> bool)
           (bases_of : list Z -> list B) (out : G -> list (list Z)).
@@ -55,6 +64,16 @@ Section RunG.
     | 5 => fin (msm_bigint_wnaf GO nb bs lks)
     | 6 => fin (msm_bigint_plain GO nb bs lks)
     | 7 => fin (msm_chunks GO true nb N (2 ^ 20) bs fks)
+    (* 11 msm_chunks_long: a stream of par[0] (> 2^20) elements given intensionally -- base i = pool[i mod |pool|],
+       scalar i = 0 except at the listed (index, value) pairs -- so that the chunk loop runs more than once *)
+    | 11 => match bs with
+            | [] => unsupported
+            | b0 :: _ =>
+                let n := nth 0 par 0 in
+                fin (msm_chunks GO true nb N (2 ^ 20)
+                       (long_stream (Z.to_nat n) 0 (fun i => nth (Z.to_nat (i mod Z.of_nat (length bs))) bs b0))
+                       (long_stream (Z.to_nat n) 0 (fun i => sparse_lookup i fks)))
+            end
     | 9 => fin (cp_run GO (msm_bigint GO true nb) (nth 0 par 0) (combine bs lks))
     | 10 => fin (hm_run GO (msm_bigint GO true nb) beq r N (nth 0 par 0) (combine bs fks))
     | _ => unsupported
